@@ -44,8 +44,6 @@ def find_angle(C, entry, path):
 def cond_path(entry, path, opts):
     t0 = time.time()
     res = {'path': path.idx, 'claims': {}, 'queries': 0, 'queries_ok': 0, 'refuted': {}, 'notes': []}
-    if not generic_path(entry, path):
-        res['skip'] = 'not a generic-branch path'; return res
     class P2: pass
     p2 = P2(); p2.__dict__.update(path.__dict__); p2.claims = []
     outs = sorted(path.outs.items())
